@@ -81,7 +81,7 @@ def build(case, tmp):
     elif fmt == 'v2':
         syn = h5synth.make_v2(path, rng, T=case['T'], F=case['F'], n_ants=case['n_ants'], shuffle_bls=True,
                               dup_final_dump=case['dup'], open_kwargs={'keepdims': case['keepdims']},
-                              lost=case.get('lost') or None,
+                              lost=case.get('lost') or None, config_as_datasets=case['seed'] % 4 == 1,
                               **({'centre_freq': [(-2.0, case['cf2']['first']), (case['cf2']['at'] - 0.4,
                                                                                    case['cf2']['second'])]}
                                  if case.get('cf2') else {}))
